@@ -25,11 +25,14 @@ class G:
         return None
 
     def val(self, e):
+        if getattr(self, "tracked", None) and ast.unparse(e) == self.tracked[0]: return self.tracked[1]
         a = self.atom(e)
         if a:
             name, kind = a
             if kind == "opt": return name
             if kind == "int": return f"(some {name})"
+            if kind == "const": return f"(some ({name}))"          # a call whose identity (text, arguments included) is the outcome: a path code
+            if kind == "local": return name                       # an expression that merely passes a translated local variable on
             raise Unsupported(f"boolean atom {name} used as a value")
         if isinstance(e, ast.Constant):
             if e.value is None: return "none"
@@ -106,8 +109,22 @@ class G:
                 el = self.block(list(s.orelse) + list(rest), var, cur, ind + 1)
                 return f"{pad}if {c} then\n{th}\n{pad}else\n{el}"
             return self.block(rest, var, cur, ind)
-        if isinstance(s, ast.Raise): raise Unsupported(f"raise on a modelled path at line {s.lineno}")
-        if var is None: raise Unsupported("statement: " + ast.unparse(s)[:60])
+        if isinstance(s, ast.Raise):
+            if var is None:
+                self.assumptions.append(f"line {s.lineno}: `raise` is rendered as the value none")
+                return pad + "none"
+            raise Unsupported(f"raise on a modelled path at line {s.lineno}")
+        if var is None:
+            # whole-function mode: local variables with translatable right-hand sides are followed; calls for effect (logging) and
+            # assignments of values that are read only through atoms are passed over
+            if isinstance(s, ast.Assign) and len(s.targets) == 1 and isinstance(s.targets[0], ast.Name):
+                try: v = self.val(s.value)
+                except Unsupported:
+                    self.assumptions.append(f"line {s.lineno}: assignment to `{s.targets[0].id}` not modelled (read only through atoms)")
+                    return self.block(rest, var, cur, ind)
+                return f"{pad}let {s.targets[0].id} := {v}\n" + self.block(rest, var, cur, ind)
+            if isinstance(s, ast.Expr) and isinstance(s.value, ast.Call): return self.block(rest, var, cur, ind)
+            raise Unsupported("statement: " + ast.unparse(s)[:60])
         if self.stores(s, var): raise Unsupported(f"`{var}` assigned inside `{type(s).__name__}` at line {s.lineno}")
         return self.block(rest, var, cur, ind)
 
@@ -127,12 +144,12 @@ def translate_site(src_root, site):
     g = G(site["atoms"]); mode = site["mode"]; rty = "LK.Py.V"
     if mode == "var":
         var = site["var"]; cur = site["atoms"][var][0] if var in site["atoms"] else "tracked"
+        g.tracked = (var, cur)
         idx = [i for i, s in enumerate(fn.body) if G.stores(s, var)]
         if not idx: raise Unsupported(f"`{var}` is never assigned in {site['fn']}")
-        if var not in site["atoms"]:          # the variable is created by the function: it must be assigned before it is read
-            body = g.block(fn.body[: idx[-1] + 1], var, cur, 1)
-        else:
-            body = g.block(fn.body[: idx[-1] + 1], var, cur, 1)
+        body = g.block(fn.body[: idx[-1] + 1], var, cur, 1)
+        if var not in site["atoms"]:          # the variable is created by the function: `none` until it is first assigned
+            body = f"  let {cur} : LK.Py.V := none\n" + body
     elif mode == "fn":
         body = g.block(fn.body, None, "", 1)
     elif mode == "assign":
@@ -154,7 +171,7 @@ def translate_site(src_root, site):
     else: raise Unsupported("mode " + mode)
     params = []; seen = set()
     for text, (name, kind) in site["atoms"].items():
-        if name in seen: continue
+        if name in seen or kind in ("const", "local"): continue
         seen.add(name); params.append(f"({name} : " + {"opt": "LK.Py.V", "int": "Int", "bool": "Bool"}[kind] + ")")
     seg = ast.get_source_segment(src, fn)
     return {"lean": f"def {site['lean']} " + " ".join(params) + f" : {rty} :=\n{body}\n", "assumptions": g.assumptions,
@@ -197,11 +214,32 @@ SITES = {
               atoms={"n": ("n", O), "self.config.n": ("cfgN", O), "N": ("N", I)}),
          dict(file="basic/random.py", cls="RandomSelector", fn="__call__", mode="var", var="n", lean="randomN",
               atoms={"n": ("n", O), "self.config.n": ("cfgN", O), "len(items)": ("L", I)})],
+ "C05": [dict(file="splitting/records.py", cls=None, fn="sample_records", mode="fn", lean="sampleRecordsPath",
+              atoms={"repeats": ("repeats", O), "disjoint": ("disjoint", B), "repeats * size >= n": ("tooMany", B),
+                     "_make_pair(data, df, test_pos, test_only=test_only)": ("0", "const"),
+                     "crossfold_records(data, repeats, test_only=test_only, rng=rng)": ("1", "const"),
+                     "_disjoint_samples(n, size, repeats, rng)": ("2", "const"), "_n_samples(n, size, repeats, rng)": ("3", "const"),
+                     "(_make_pair(data, df, test_is, test_only=test_only) for test_is in ips)": ("ips", "local")}),
+         dict(file="splitting/users.py", cls=None, fn="sample_users", mode="fn", lean="sampleUsersPath",
+              atoms={"repeats": ("repeats", O), "disjoint": ("disjoint", B), "repeats * size >= len(users)": ("tooMany", B),
+                     "_make_split(data, rate_df, test_us, method, test_only=test_only)": ("0", "const"),
+                     "crossfold_users(data, repeats, method, test_only=test_only, rng=rng)": ("1", "const"),
+                     "[unums[i * size:(i + 1) * size] for i in range(repeats)]": ("2", "const"),
+                     "[rng.choice(len(users), size, replace=False) for _i in range(repeats)]": ("3", "const"),
+                     "(_make_split(data, rate_df, users[us], method, test_only=test_only) for us in test_usets)": ("test_usets", "local")})],
+ "C06": [dict(file="metrics/ranking/_base.py", cls="RankingMetricBase", fn="truncate", mode="fn", lean="truncate",
+              atoms={"self.k": ("k", O), "items.ordered": ("ordered", B), "len(items)": ("len", I), "items[:self.k]": ("cut", O), "items": ("items", O)}),
+         dict(file="metrics/ranking/_pr.py", cls="Recall", fn="measure_list", mode="var", var="nrel", lean="recallDenominator",
+              atoms={"self.k": ("k", O), "len(test)": ("nTest", I)}),
+         dict(file="metrics/ranking/_dcg.py", cls="NDCG", fn="measure_list", mode="var", var="n", lean="ndcgIdealLength",
+              atoms={"self.k": ("k", O), "self.gain": ("gain", O), "len(test)": ("nTest", I)})],
  "C07": [dict(file="metrics/bulk.py", cls="RunAnalysis", fn="measure", mode="branch", select="list_test", lean="measureTestBranch",
               atoms={"out": ("out", O), "list_test": ("listTest", O)})],
  "C01": [dict(file="data/relationships.py", cls="MatrixRelationshipSet", fn="row_items", mode="branch", select="tbl", lean="rowItemsBranch",
               atoms={"tbl": ("tbl", O)})],
 }
+
+SITES["C11"] = SITES["C11"] + SITES["C05"]          # the samplers' fall-back paths must hand the generator on (C11) as well as `test_only` (C05)
 
 def generate(pid, src_root):
     """Lean text of LK/Generated/Guards<pid>.lean for the lenskit sources under `src_root` (…/src/lenskit)."""
